@@ -49,6 +49,7 @@ let parse_op (s : string) : op =
   | ["G"; k] -> OGet (parse_value k)
   | ["N"; k] -> ONext (parse_value k)
   | ["L"] -> OLen
+  | ["E"; a; b] -> OEq (parse_value a, parse_value b)
   | ["W"; m; p; q; fresh; cap] -> OWalk (nat_of_hex m, nat_of_hex p, nat_of_hex q, z_of_hex fresh, nat_of_hex cap)
   | _ -> failwith ("bad op: " ^ s)
 
@@ -62,6 +63,7 @@ let parse_sop (s : string) : sop =
   | ["N"; k; nk] -> SNext (parse_value k, parse_value nk)
   | ["L"] -> SLen
   | ["T"] -> SAll
+  | ["E"; a; b] -> SEq (parse_value a, parse_value b)
   | _ -> failwith ("bad sop: " ^ s)
 
 let show_pairs l = if l = [] then "-" else
@@ -74,6 +76,9 @@ let show_result (r : result) : string =
   | RVal v -> show_value v
   | RNext (k, v, ok) -> show_value k ^ "," ^ show_value v ^ "," ^ (if ok then "ok" else "invalid")
   | RLen n -> hex_of_nat n
+  | REq (e, r, same) ->
+    let b x = if x then "1" else "0" in
+    "q" ^ b e ^ b r ^ (match same with None -> "-" | Some x -> b x)
   | RWalk (vis, s) -> (match s with WEnd -> "end" | WInvalid -> "invalid" | WCap -> "cap") ^ ":" ^ show_pairs vis
 
 let show_sres (r : sres) : string =
@@ -84,6 +89,7 @@ let show_sres (r : sres) : string =
   | SRValB (v, b) -> show_value v ^ "," ^ (if b then "b1" else "b0")
   | SRBorders l -> String.concat "," (List.map hex_of_z l)
   | SRPairs l -> show_pairs l
+  | SREq (r, same) -> (if r then "1" else "0") ^ (if same then "1" else "0")
 
 let show_slot (s : slot) : string =
   String.concat ":" [show_value s.skey; show_value s.sval; hex_of_nat s.snext;
